@@ -1127,5 +1127,45 @@ def r18_memento_total(a, tier):
     return rep
 
 
+def r19_pattern_text_validated(a, tier):
+    rep = RuleReport(
+        'C08.R19',
+        'a regular expression written in a grammar is validated where its text is produced: the model constructor (Pattern.__post_init__) answers an '
+        'invalid expression with ValueError, which is not a TatSu error, so the grammar actions that hand on pattern text - regex (one /.../) and '
+        'regexes (the concatenation of several parts: each part can be valid and the whole not, `/a{2/ + /,1}/`) - pass _validate_pattern, which '
+        'raises FailedSemantics, on every path to a normal exit; deprecated_regex reaches one of them [paths]',
+        floor=2,
+    )
+    gs = a.p.cls('tatsu.peg.semantics.GrammarSemantics')
+    vp = gs.methods.get('_validate_pattern')
+    if vp is None:
+        raise AnalysisError('C08.R19: GrammarSemantics._validate_pattern not found')
+    raises_fs = any(isinstance(n, ast.Raise) and n.exc is not None and 'FailedSemantics' in norm(n.exc) for n in walk_no_defs(vp.node))
+    compiles = any(isinstance(n, ast.Call) and dotted(n.func) in ('re.compile', 'cached_re_compile') for n in walk_no_defs(vp.node))
+    rep.add({'validator': vp.qualname, 'compiles_the_text': compiles, 'raises_FailedSemantics': raises_fs})
+    if not (raises_fs and compiles):
+        rep.fail(vp.qualname, 'validator', '_validate_pattern no longer compiles the text and raises FailedSemantics for an invalid expression', vp.loc)
+    validating = {'_validate_pattern'}
+    for name in ('regex', 'regexes', 'deprecated_regex'):
+        m = gs.methods.get(name)
+        if m is None:
+            continue
+
+        def flagger(ex, f, call, state, m=m):
+            nm = dotted(call.func).split('.')[-1]
+            if nm in validating:
+                return ('validated',)
+            return ()
+        outs = run_flags(a, m, flagger)
+        bad = [o for o in outs if o.kind in ('return', 'next') and 'validated' not in o.state]
+        rep.add({'action': m.qualname, 'normal_exits': len([o for o in outs if o.kind in ('return', 'next')]), 'exits_without_validation': len(bad)})
+        if bad:
+            rep.fail(m.qualname, f'pattern-not-validated:{name}', f'the grammar action {name}() has a normal exit that has not passed _validate_pattern: an invalid regular expression '
+                     f'reaches Pattern.__post_init__, and tatsu.compile() raises ValueError instead of a grammar error', m.loc)
+        else:
+            validating.add(name)  # an action that always validates validates for the actions that delegate to it
+    return rep
+
+
 RULES = [r1_one_factory, r2_sentinels, r3_cache_guards, r4_check_before_use, r5_progress, r6_scanner_bounds, r7_operand_coverage,
-         r8_eat_loops_terminate, r9_converters_guarded, r10_message_renders, r11_line_index, r12_include_cycles, r13_input_converters, r14_pattern_literals, r15_constant_terminates, r16_messages_total, r17_constant_index, r18_memento_total]
+         r8_eat_loops_terminate, r9_converters_guarded, r10_message_renders, r11_line_index, r12_include_cycles, r13_input_converters, r14_pattern_literals, r15_constant_terminates, r16_messages_total, r17_constant_index, r18_memento_total, r19_pattern_text_validated]
